@@ -68,6 +68,12 @@ class SerM:
 class SObj(Obj):
     serialized: Tuple[SerM, ...] = ()
     serializer: Optional[Conv] = None  # registered with apischema.serializer (class-level conversion)
+    # inheritance: `fields` lists ALL fields (inherited first); the class is `class name(base)` declaring
+    # only the fields named in `own`, re-decorated with @dataclass or left a plain subclass;
+    # `fields_set` says whether THIS class is decorated with with_fields_set
+    base: Optional[str] = None
+    own: Tuple[str, ...] = ()
+    redecorate: bool = True
 
 
 @dataclass(frozen=True)
@@ -227,9 +233,18 @@ def _realize_sobj(td: SObj, realm: Realm):
     lines: List[str] = []
     if td.fields_set:
         lines.append("@_with_fields_set")
-    lines.append("@dataclasses.dataclass")
-    lines.append(f"class {td.name}:")
+    if td.base is None or td.redecorate:
+        lines.append("@dataclasses.dataclass")
+    if td.base is not None:
+        if td.base not in realm.built:
+            raise TypeError(f"base {td.base} of {td.name} must be realised first")
+        lines.append(f"class {td.name}({td.base}):")
+    else:
+        lines.append(f"class {td.name}:")
+    n_head = len(lines)
     for f in td.fields:
+        if td.base is not None and f.name not in td.own:
+            continue
         _prebuild(f.t, realm)
         tp = M.realize(f.t, realm)
         if getattr(f, "undefined", False):
@@ -250,7 +265,10 @@ def _realize_sobj(td: SObj, realm: Realm):
         ns[f"_f_{td.name}_{f.name}"] = kw
         lines.append(f"    {f.name}: _t_{td.name}_{f.name} = dataclasses.field(**_f_{td.name}_{f.name})")
     after: List[str] = []
+    inherited = {m.name for m in getattr(realm.descs.get(td.base), "serialized", ())} if td.base else set()
     for sm in td.serialized:
+        if sm.name in inherited:
+            continue  # inherited serialized methods are listed in the description, not re-declared
         _prebuild(sm.ret, realm)
         ret = M.realize(sm.ret, realm)
         if sm.undefined:
@@ -272,7 +290,7 @@ def _realize_sobj(td: SObj, realm: Realm):
             lines.append("    @property")
         lines.append(f"    def {sm.name}(self) -> _r_{td.name}_{sm.name}:")
         lines.append(f"        return _b_{td.name}_{sm.name}(self)")
-    if not td.fields and not [s for s in td.serialized if s.kind != "function"]:
+    if len(lines) == n_head:
         lines.append("    pass")
     exec("\n".join(lines + after), ns)
     cls = ns[td.name]
@@ -423,7 +441,9 @@ class RefSer:
             return True
         if f.skip_ser_if_falsy and not x:
             return True
-        if o.exclude_unset and td.fields_set:
+        if o.exclude_unset:
+            # "unset" is defined for the instances which carry a tracked set (with_fields_set classes
+            # and their subclasses): fields_set(obj) is part of the value
             fs = tracked(obj)
             if fs is not None and f.name not in fs:
                 return True
